@@ -68,7 +68,7 @@ def cases(rng, tier):
         out.append(gen_assert_history(rng))
     # assertions
     for kind in ("client_secret_jwt", "private_key_jwt"):
-        for mut in ["none", "iss", "sub", "aud", "aud-list", "exp-past", "exp-missing", "jti-missing", "iss-missing", "sub-missing", "aud-missing", "bad-sig", "alg-none",
+        for mut in ["none", "iss", "sub", "aud", "aud-list", "aud-superstring", "exp-past", "exp-missing", "jti-missing", "iss-missing", "sub-missing", "aud-missing", "bad-sig", "alg-none",
                     "unknown-client", "other-clients-key", "type-wrong", "type-missing", "replay", "nbf-future", "iat-future", "exp-within-leeway", "not-registered-method"]:
             out.append({"op": "assertion", "kind": kind, "mut": mut})
     return out
@@ -86,10 +86,12 @@ def gen_assert_history(rng):
         r = {"sub": sub, "iss": sub, "aud": ms.TOKEN_URL, "exp": 300, "jti": f"j{len(jtis)}", "key": sub, "type": "ok", "dt": rng.choice([0, 0, 1, 30, 200, 400])}
         if jtis and rng.random() < 0.35:
             r["jti"] = rng.choice(jtis)
-        flaw = rng.choice([None] * 5 + ["iss", "aud", "aud-list", "exp-past", "exp-leeway", "no-jti", "no-exp", "no-sub", "key", "type", "no-type", "alg-none", "jti-other-sub", "nbf-future"])
+        flaw = rng.choice([None] * 5 + ["iss", "aud", "aud-list", "exp-past", "exp-leeway", "no-jti", "no-exp", "no-sub", "key", "type", "no-type", "alg-none", "jti-other-sub", "nbf-future", "aud-superstring", "aud-prefix", "aud-superstring"])
         if flaw == "iss": r["iss"] = "someone-else"
         elif flaw == "aud": r["aud"] = "https://other/token"
         elif flaw == "aud-list": r["aud"] = ["https://other/token", ms.TOKEN_URL]
+        elif flaw == "aud-superstring": r["aud"] = rng.choice([ms.TOKEN_URL + "/", "https://evil.example/cb?next=" + ms.TOKEN_URL, ms.TOKEN_URL + "x"])
+        elif flaw == "aud-prefix": r["aud"] = ms.TOKEN_URL[:-1]
         elif flaw == "exp-past": r["exp"] = -1000
         elif flaw == "exp-leeway": r["exp"] = -30
         elif flaw == "no-jti": r["jti"] = None
@@ -279,6 +281,7 @@ def impl_assertion(c, store, srv):
     elif mut == "sub": claims["sub"] = "basic"
     elif mut == "aud": claims["aud"] = "https://other/token"
     elif mut == "aud-list": claims["aud"] = ["https://other/token", ms.TOKEN_URL]
+    elif mut == "aud-superstring": claims["aud"] = "https://evil.example/cb?next=" + ms.TOKEN_URL
     elif mut == "exp-past": claims["exp"] = now - 1000
     elif mut == "exp-within-leeway": claims["exp"] = now - 30
     elif mut == "exp-missing": claims.pop("exp")
